@@ -417,6 +417,16 @@ func vC02Nsec3Case(t *testing.T, tr *vC02Trace, g *vC02Gen, zin *vC02Zone) {
 				if p.dl == 0 && vC02Sub(p.q, z.apex) && z.owner(p.q) != nil && !z.insecureDelegation(p.q) {
 					p.fails = append(p.fails, vC02Failure{field: "dl", msg: fmt.Sprintf("VerifyDelegationForZoneWithWork accepted %s as an insecure delegation", qs)})
 				}
+				// round 6: "no DS, insecure" is never proven for a name strictly below a delegation that has a DS (or
+				// below a DNAME): every name on the way down to the cut is in the chain, no Opt-Out span covers it
+				if p.dl == 0 && vC02Sub(p.q, z.apex) && vC02BelowSecureCut(z, p.q) != nil {
+					p.fails = append(p.fails, vC02Failure{field: "dl", msg: fmt.Sprintf("VerifyDelegationForZoneWithWork accepted %s as lying in an insecure (Opt-Out) span although it is below the secure cut %s",
+						qs, vC02Pres(vC02BelowSecureCut(z, p.q).name))})
+				}
+				if p.nd == 0 && p.qtype == dns.TypeDS && vC02BelowSecureCut(z, p.eff) != nil {
+					p.fails = append(p.fails, vC02Failure{field: "nd", msg: fmt.Sprintf("VerifyNODATAForZoneWithWork accepted 'no DS' (secure=%v) for %s although it is below the secure cut %s",
+						p.nds, p.effStr, vC02Pres(vC02BelowSecureCut(z, p.eff).name))})
+				}
 			}
 			if aggrJudged {
 				if p.ag == 13 && (how != "" || p.qclass != 1) {
@@ -712,4 +722,16 @@ func (w *vC02Work) BeginNSEC3Hash() (func(), error) {
 
 func (w *vC02Work) NSEC3HashMemos() NSEC3HashMemoAccess {
 	return NSEC3HashMemoAccess{Read: w.memo, Write: w.memo}
+}
+
+// the delegation with a DS (or DNAME owner) strictly above n, if any
+func vC02BelowSecureCut(z *vC02Zone, n vC02Name) *vC02Node {
+	for i := range z.nodes {
+		ts := z.nodes[i].types
+		secureCut := (vC02Has(ts, dns.TypeNS) && !vC02Has(ts, dns.TypeSOA) && vC02Has(ts, dns.TypeDS)) || vC02Has(ts, dns.TypeDNAME)
+		if secureCut && vC02StrictSub(n, z.nodes[i].name) {
+			return &z.nodes[i]
+		}
+	}
+	return nil
 }
